@@ -92,6 +92,8 @@ const (
 // failure causes
 // ---------------------------------------------------------------------------
 
+var c28Trace = os.Getenv("C28_TRACE") == "1" // debugging aid: the child names every concrete input on stderr
+
 var c28Digits = regexp.MustCompile(`[0-9]+`)
 var c28Hex = regexp.MustCompile(`0x[0-9a-f]+`)
 
@@ -181,6 +183,7 @@ type c28Result struct {
 	Inputs  int    `json:"inputs"`           // concrete inputs executed
 	Caught  int    `json:"caught,omitempty"` // panics the router's own panicCatcher turned into a 500 (an answer, not a failure)
 	CaughtW string `json:"caught_why,omitempty"`
+	Recycle bool   `json:"recycle,omitempty"` // the child leaves after this answer (it holds too much memory to be a fair start for the next vector)
 	Err     string `json:"err,omitempty"`    // harness error (not a verdict)
 }
 
@@ -353,7 +356,7 @@ func (h *c28Harness) Apply(a map[string]any) error {
 			return fmt.Errorf("harness error in the child: %s", r.Err)
 		}
 		h.res = &r
-		if r.Outcome == "hang" { // the child leaves after reporting a hang
+		if r.Outcome == "hang" || r.Recycle { // the child leaves after reporting a hang or when it has grown too much
 			h.reap()
 		}
 	case errors.Is(err, context.DeadlineExceeded):
@@ -361,7 +364,7 @@ func (h *c28Harness) Apply(a map[string]any) error {
 		h.res = &c28Result{Outcome: "hang", Why: "vector not finished within the deadline"}
 	default: // EOF: the process is gone
 		state, errText := h.reap()
-		h.res = &c28Result{Outcome: "crash", Why: c28WhyDead(errText, state), Detail: "the process terminated (" + state + "):\n" + c28First(errText, 6000)}
+		h.res = &c28Result{Outcome: "crash", Why: c28WhyDead(errText, state), Detail: "the process terminated (" + state + "):\n" + c28Excerpt(errText)}
 	}
 	h.inputs += h.res.Inputs
 	h.caught += h.res.Caught
@@ -372,6 +375,20 @@ func (h *c28Harness) Apply(a map[string]any) error {
 		fmt.Fprintf(h.log, "%s %s inputs=%d ms=%d why=%q\n", verifkit.Canon(h.vec), h.res.Outcome, h.res.Inputs, time.Since(t0).Milliseconds(), h.res.Why)
 	}
 	return nil
+}
+
+// c28Excerpt keeps the part of the dead child's stderr that explains its death.
+func c28Excerpt(s string) string {
+	for _, marker := range []string{"\npanic: ", "\nfatal error: ", "panic: ", "fatal error: "} {
+		if i := strings.Index(s, marker); i >= 0 {
+			from := i - 600 // with C28_TRACE: the last inputs named before the death
+			if from < 0 {
+				from = 0
+			}
+			return c28First(s[from:], 6000)
+		}
+	}
+	return c28Last(s, 3000)
 }
 
 func c28First(s string, n int) string {
@@ -868,6 +885,9 @@ func (e *c28Env) send(s c28Send) (status int, answered bool) {
 	e.mu.Lock()
 	e.count++
 	e.mu.Unlock()
+	if c28Trace {
+		fmt.Fprintf(os.Stderr, "c28 input %s %s %s [%s] %d bytes\n", s.target, s.method, c28First(s.path, 80), s.label, len(s.body))
+	}
 	client, base := e.httpc, e.urls[s.target]
 	if s.target == "grpc" {
 		client, base = e.h2c, "http://"+e.grpcAddr
@@ -1778,10 +1798,14 @@ func c28ChildMain() {
 		}
 		r := env.eval(req.V)
 		r.ID = req.ID
+		// the address-space limit must judge a vector, not what earlier vectors left behind
+		var ms runtime.MemStats
+		runtime.ReadMemStats(&ms)
+		r.Recycle = ms.Sys > 768<<20
 		reply(r)
-		if r.Outcome == "hang" {
+		if r.Outcome == "hang" || r.Recycle {
 			os.RemoveAll(env.dir)
-			os.Exit(0) // whatever is still running in here must not leak into the next vector
+			os.Exit(0) // whatever is still running or held in here must not leak into the next vector
 		}
 	}
 }
